@@ -75,8 +75,18 @@ def owner(f, n, local_defs):
             return ('def', d)
         if m.id in local_defs:
             return None
-        return ('name', m.id)
+        return ('name', name_suffix(m.id))
     return None
+
+
+def name_suffix(name):
+    """gs_map -> _map, ps_map -> _map, gs1 -> 1, cs1 -> 1, g -> '', p -> '' (the owner part of a role name)."""
+    for pre in ('gs', 'ps', 'cs'):
+        if name.startswith(pre):
+            return name[len(pre):]
+    if name[:1] in ('g', 'p', 'c'):
+        return name[1:]
+    return name
 
 
 def local_def_sites(f):
@@ -135,6 +145,11 @@ def check_call(run, repo, f, call, target, is_method=False, rule='R2', allow_sel
                 run.check(oa == ob, rule + '.owner', f, call,
                           'parameters `%s` and `%s` of %s are fed from different objects (%s vs %s)'
                           % (a, b, fn.qual, oa[1], ob[1]))
+            elif oa[0] == 'name' and ob[0] == 'name' and name_role(norm(mapping[a]).split('[')[0]) \
+                    and name_role(norm(mapping[b]).split('[')[0]):
+                run.check(oa == ob, rule + '.owner', f, call,
+                          'parameters `%s` and `%s` of %s are fed from `%s` and `%s`, which belong to different '
+                          'operands' % (a, b, fn.qual, norm(mapping[a]), norm(mapping[b])))
             elif oa[0] == 'def' and ob[0] == 'def':
                 run.check(oa == ob, rule + '.owner', f, call,
                           'parameters `%s` and `%s` of %s are fed from values of different origin' % (a, b, fn.qual))
